@@ -165,7 +165,7 @@ def explore(ctx, scale=1.0):
         b = gen.gen_block(rng, rng.choice(gen.BLOCK_TYPES + ["map", "layer", "class"]), depth=rng.choice([1, 2, 3]), max_items=8)
         docs.append((gen.render(b, gen.Layout(rng, plain=rng.random() < .5)), "random"))
     P = trees.parser(False, False)
-    pp_cases, treqs, tkeep = [], [], []
+    pp_cases, treqs, tkeep, creqs, ckeep = [], [], [], [], []
     for idx, (text, kind) in enumerate(docs):
         try:
             d = MapfileToDict().transform(P.parse(text))
@@ -191,6 +191,7 @@ def explore(ctx, scale=1.0):
             line_shapes(ctx, tree2, out)
             if trees.ascii_case_safe(tree2) and idx % 3 == 0:
                 treqs.append(trees.request(tree2, False, False)); tkeep.append((out, trees.real_transform(tree2, False, False)))
+                creqs.append(dict(trees.request(tree2, False, False), op="classify")); ckeep.append((out, tkeep[-1][1]))
                 tree2 = P.parse(out)
             d2 = MapfileToDict().transform(tree2)
         except Exception as ex:
@@ -211,11 +212,29 @@ def explore(ctx, scale=1.0):
             ctx.corr_ok("transform(printed)")
         else:
             ctx.corr_diff("transform(printed)", {"text": text[:1500]}, json.dumps(ans)[:400], json.dumps(real)[:400])
+    classified(ctx, creqs, ckeep)
+
+
+def classified(ctx, creqs, ckeep):
+    """premise of C01_classified_roundtrip on real trees: when the classifier accepts the real tree of a printed document
+    (with dictionary d), the theorem says the transformer returns d — compared with what the real transformer returned"""
+    for (text, real), ans in zip(ckeep, core.lean_call(creqs)):
+        if not isinstance(ans, dict) or "in" not in ans:
+            ctx.corr_diff("classify", {"text": text[:800]}, json.dumps(ans)[:300], "(no answer)"); continue
+        if not ans["in"]:
+            ctx.count("document-class: outside (special blocks, repeated keywords, CONFIG, POINTS … at some level)"); continue
+        ctx.count("document-class: inside (C01_document_roundtrip applies)")
+        if "ok" in real and len(ans["d"]) == 1 and ans["d"][0] == real["ok"]:
+            ctx.corr_ok("classify")
+        elif "ok" in real and len(ans["d"]) != 1:
+            ctx.count("document-class: several roots (not compared)")
+        else:
+            ctx.corr_diff("classify", {"text": text[:1500]}, json.dumps(ans["d"])[:400], json.dumps(real)[:400])
 
 
 def main(ctx):
     if ctx.replay:
         print(open(ctx.replay).read()[:4000]); return
-    core.proof_leg(ctx, ["Mappy.Props.C01", "Mappy.Props.C01Attr"])
+    core.proof_leg(ctx, ["Mappy.Props.C01", "Mappy.Props.C01Attr", "Mappy.Props.C01Class"])
     explore(ctx)
     core.finish(ctx, LEVEL_NOTE, RULE, search=lambda c: explore(c, scale=2.0))
